@@ -12,7 +12,9 @@ Q gen_num(Tape &t, int big) {
   case 0: case 1: return small_int(t);
   case 2: {   // small fractions
     long d = 1 + (long)t.below(12);
-    return Q((long)t.below(41) - 20, d);
+    Q v((long)t.below(41) - 20, d);
+    v.canonicalize();      // GMP requires canonical operands
+    return v;
   }
   case 3: {   // decimal-looking values not representable in binary
     static const char *dec[] = {"1/10", "1/3", "2/3", "1/100", "7/10", "123/1000", "1/7", "22/7", "355/113", "999999/1000000"};
@@ -59,6 +61,382 @@ Q gen_nz(Tape &t, int big) {
 }
 std::string gen_name(Tape &t, const char *prefix, int idx) {
   return std::string(prefix) + std::to_string(idx);
+}
+
+}  // namespace qsx
+
+// =====================================================================================
+// LP families
+// =====================================================================================
+namespace qsx {
+
+static void name_all(Model &m) {
+  for (int j = 0; j < m.n(); j++) m.cols[j].name = "x" + std::to_string(j + 1);
+  for (int i = 0; i < m.m(); i++) m.rows[i].name = "c" + std::to_string(i + 1);
+}
+
+// random sparse row over n columns
+static void rand_row(Tape &t, int n, int big, int maxlen, Row &r) {
+  r.a.clear();
+  if (n == 0) return;
+  int k = 1 + (int)t.below((uint32_t)std::min(n, maxlen));
+  for (int c = 0; c < k; c++) r.a[(int)t.below((uint32_t)n)] = gen_nz(t, big);
+}
+
+static void rand_box(Tape &t, int big, Q &lo, Q &up, bool want_finite) {
+  int kind = want_finite ? 6 + (int)t.below(2) : (int)t.below(8);
+  switch (kind) {
+  case 0: case 1: lo = 0; up = PINF(); break;
+  case 2: lo = NINF(); up = PINF(); break;
+  case 3: lo = gen_num(t, big); up = PINF(); break;
+  case 4: lo = NINF(); up = gen_num(t, big); break;
+  case 5: lo = gen_num(t, big); up = lo; break;
+  case 6: lo = 0; up = abs(gen_nz(t, big)); break;
+  default: { Q a = gen_num(t, big), b = gen_num(t, big); lo = a < b ? a : b; up = a < b ? b : a; }
+  }
+}
+
+// point inside [lo,up]; 'where' 0 = at lower (if finite), 1 = at upper, 2 = interior / anywhere
+static Q point_in(Tape &t, const Q &lo, const Q &up, int where, int big) {
+  bool fl = is_fin(lo), fu = is_fin(up);
+  if (where == 0 && fl) return lo;
+  if (where == 1 && fu) return up;
+  if (fl && fu) {
+    if (lo == up) return lo;
+    Q f = Q((long)t.below(9) + 1, 10);
+    f.canonicalize();
+    return lo + (up - lo) * f;
+  }
+  if (fl) return lo + abs(gen_num(t, big)) + (where == 2 ? Q(1) : Q(0));
+  if (fu) return up - abs(gen_num(t, big)) - (where == 2 ? Q(1) : Q(0));
+  return gen_num(t, big);
+}
+
+static Q dot(const Row &r, const std::vector<Q> &x) {
+  Q a = 0;
+  for (auto &kv : r.a) a += kv.second * x[kv.first];
+  return a;
+}
+
+// Given a model with columns (bounds) and rows (coefficients only), choose x0, row senses/rhs and
+// multipliers so that (x0, y0) is an optimal primal-dual pair; sets the objective.
+static void make_optimal(Tape &t, Model &m, int big, int degeneracy, GenLP &out) {
+  int n = m.n(), mm = m.m();
+  bool mini = m.objsense >= 0;
+  std::vector<Q> x0(n), y0(mm, Q(0)), d0(n, Q(0));
+  std::vector<int> where(n);
+  for (int j = 0; j < n; j++) {
+    where[j] = (int)t.below(3);
+    x0[j] = point_in(t, m.cols[j].lo, m.cols[j].up, where[j], big);
+  }
+  for (int i = 0; i < mm; i++) {
+    Row &r = m.rows[i];
+    Q act = dot(r, x0);
+    int tight = (int)t.below(3);            // 0 slack, 1 tight with multiplier, 2 tight degenerate
+    if ((int)t.below(8) < degeneracy) tight = 2;
+    r.sense = "LGER"[t.below(4)];
+    r.range = 0;
+    Q gap = abs(gen_nz(t, big));
+    Q ymag = abs(gen_nz(t, big));
+    switch (r.sense) {
+    case 'L':
+      r.rhs = tight ? act : act + gap;
+      if (tight == 1) y0[i] = mini ? -ymag : ymag;
+      break;
+    case 'G':
+      r.rhs = tight ? act : act - gap;
+      if (tight == 1) y0[i] = mini ? ymag : -ymag;
+      break;
+    case 'E':
+      r.rhs = act;
+      if (tight >= 1) y0[i] = t.coin() ? ymag : -ymag;
+      if (tight == 2) y0[i] = 0;
+      break;
+    default: {   // R: rhs <= act <= rhs + range
+      int side = (int)t.below(3);           // 0 at lower side, 1 at upper side, 2 interior
+      Q rg = t.chance(1, 6) ? Q(0) : abs(gen_nz(t, big));
+      r.range = rg;
+      if (rg == 0) { r.rhs = act; if (tight == 1) y0[i] = t.coin() ? ymag : -ymag; }
+      else if (side == 0) { r.rhs = act; if (tight == 1) y0[i] = mini ? ymag : -ymag; }
+      else if (side == 1) { r.rhs = act - rg; if (tight == 1) y0[i] = mini ? -ymag : ymag; }
+      else { r.rhs = act - rg / 2; }
+    }
+    }
+  }
+  for (int j = 0; j < n; j++) {
+    const Col &c = m.cols[j];
+    bool atlo = is_fin(c.lo) && x0[j] == c.lo, atup = is_fin(c.up) && x0[j] == c.up;
+    Q mag = abs(gen_nz(t, big));
+    int pick = (int)t.below(3);
+    if ((int)t.below(8) < degeneracy) pick = 2;   // zero reduced cost although at a bound
+    if (pick == 2) d0[j] = 0;
+    else if (atlo && atup) d0[j] = t.coin() ? mag : -mag;
+    else if (atlo) d0[j] = mini ? mag : -mag;
+    else if (atup) d0[j] = mini ? -mag : mag;
+    else d0[j] = 0;
+  }
+  // c = A^T y0 + d0
+  for (int j = 0; j < n; j++) m.cols[j].obj = d0[j];
+  for (int i = 0; i < mm; i++)
+    for (auto &kv : m.rows[i].a) m.cols[kv.first].obj += y0[i] * kv.second;
+  out.wx = x0;
+  out.wy = y0;
+  Q v = 0;
+  for (int j = 0; j < n; j++) v += m.cols[j].obj * x0[j];
+  out.expect = T_OPTIMAL;
+  out.expect_value = v;
+}
+
+static void base_shape(Tape &t, const GenOpts &o, Model &m, int big, bool finite_boxes = false) {
+  m = Model();
+  m.objsense = t.coin() ? -1 : 1;
+  int n = 1 + (int)t.below((uint32_t)o.maxn), mm = (int)t.below((uint32_t)o.maxm + 1);
+  for (int j = 0; j < n; j++) {
+    Col c;
+    rand_box(t, big, c.lo, c.up, finite_boxes);
+    m.cols.push_back(c);
+  }
+  for (int i = 0; i < mm; i++) {
+    Row r;
+    rand_row(t, n, big, std::max(2, std::min(n, 6)), r);
+    m.rows.push_back(r);
+  }
+}
+
+void gen_lp_family(Tape &t, const GenOpts &o, int family, GenLP &out) {
+  out = GenLP();
+  Model &m = out.m;
+  int big = o.bigness >= 2 ? (int)t.below(3) : std::min(o.bigness, (int)t.below(2));
+  static const char *names[] = {"F-rand", "F-opt", "F-inf", "F-face", "F-unb", "F-ill", "F-cyc", "F-shape"};
+  out.family = names[family % F_NFAM];
+  switch (family % F_NFAM) {
+  case F_RAND: {
+    base_shape(t, o, m, big);
+    for (auto &c : m.cols) c.obj = gen_num(t, big);
+    for (auto &r : m.rows) {
+      r.sense = "LGER"[t.below(o.allow_range ? 4 : 3)];
+      // E rows make random LPs almost surely infeasible: keep them rare
+      if (r.sense == 'E' && !t.chance(1, 4)) r.sense = t.coin() ? 'L' : 'G';
+      r.rhs = gen_num(t, big);
+      r.range = r.sense == 'R' ? abs(gen_num(t, big)) : Q(0);
+    }
+    break;
+  }
+  case F_OPT: {
+    base_shape(t, o, m, big);
+    make_optimal(t, m, big, (int)t.below(4), out);
+    break;
+  }
+  case F_FACE: {
+    base_shape(t, o, m, big);
+    make_optimal(t, m, big, 1 + (int)t.below(5), out);
+    // add face structure around the witness: opposite-sense twins of rows, sums of equalities
+    int mm = m.m();
+    int extra = 1 + (int)t.below(3);
+    for (int e = 0; e < extra && mm > 0; e++) {
+      int i = (int)t.below((uint32_t)mm);
+      Row r = m.rows[i];
+      Q act = dot(r, out.wx);
+      if (t.coin()) {   // twin: pins the row to its activity
+        r.sense = r.sense == 'L' ? 'G' : 'L';
+        r.rhs = act; r.range = 0;
+      } else {          // sum of two rows as a (redundant) equality through the witness
+        int i2 = (int)t.below((uint32_t)mm);
+        Q f = gen_nz(t, 1);
+        for (auto &kv : m.rows[i2].a) { r.a[kv.first] += f * kv.second; if (r.a[kv.first] == 0) r.a.erase(kv.first); }
+        r.sense = 'E'; r.rhs = dot(r, out.wx); r.range = 0;
+      }
+      m.rows.push_back(r);
+      out.wy.push_back(Q(0));
+    }
+    break;
+  }
+  case F_INF: {
+    base_shape(t, o, m, big, true);     // finite boxes so the aggregated row is bounded
+    for (auto &c : m.cols) c.obj = gen_num(t, big);
+    int n = m.n();
+    // ordinary rows: anything (they cannot repair infeasibility)
+    for (auto &r : m.rows) {
+      r.sense = t.coin() ? 'L' : 'G';
+      Q lo = 0, up = 0;
+      for (auto &kv : r.a) {
+        Q a = kv.second * m.cols[kv.first].lo, b = kv.second * m.cols[kv.first].up;
+        lo += a < b ? a : b; up += a < b ? b : a;
+      }
+      r.rhs = r.sense == 'L' ? up : lo;   // implied by the box: harmless
+      r.range = 0;
+    }
+    // the contradiction: a = a1 + a2, a1.x >= r1, a2.x >= r2, r1 + r2 = max_box(a.x) + eps
+    static const int margins[] = {0, -20, -60, -200};
+    int mk = (int)t.below(4);
+    Q eps = mk == 0 ? Q(1) : qpow2(margins[mk]);
+    Row a1, a2;
+    rand_row(t, n, big, std::max(2, std::min(n, 5)), a1);
+    rand_row(t, n, big, std::max(2, std::min(n, 5)), a2);
+    Q umax = 0, u1 = 0;
+    std::map<int, Q> sum = a1.a;
+    for (auto &kv : a2.a) sum[kv.first] += kv.second;
+    for (auto &kv : sum) { Q a = kv.second * m.cols[kv.first].lo, b = kv.second * m.cols[kv.first].up; umax += a < b ? b : a; }
+    for (auto &kv : a1.a) { Q a = kv.second * m.cols[kv.first].lo, b = kv.second * m.cols[kv.first].up; u1 += a < b ? b : a; }
+    bool two = t.coin();
+    std::vector<Q> y(m.m(), Q(0));
+    if (two) {
+      a1.sense = 'G'; a1.rhs = u1 - abs(gen_num(t, 1));
+      a2.sense = 'G'; a2.rhs = umax + eps - a1.rhs;
+      if (t.coin()) {   // present the second one as an L row of the negated vector
+        for (auto &kv : a2.a) kv.second = -kv.second;
+        a2.rhs = -a2.rhs; a2.sense = 'L';
+      }
+      int p1 = (int)t.below((uint32_t)m.m() + 1);
+      m.rows.insert(m.rows.begin() + p1, a1);
+      int p2 = (int)t.below((uint32_t)m.m() + 1);
+      m.rows.insert(m.rows.begin() + p2, a2);
+    } else {
+      Row a;
+      a.a = sum;
+      for (auto it = a.a.begin(); it != a.a.end();) { if (it->second == 0) it = a.a.erase(it); else ++it; }
+      a.sense = t.coin() ? 'G' : 'E';
+      a.rhs = umax + eps;
+      m.rows.insert(m.rows.begin() + (int)t.below((uint32_t)m.m() + 1), a);
+    }
+    out.expect = T_INFEASIBLE;
+    out.family += mk == 0 ? "/margin1" : strprintf("/margin2^%d", margins[mk]);
+    break;
+  }
+  case F_UNB: {
+    base_shape(t, o, m, big);
+    int n = m.n();
+    std::vector<Q> d(n, Q(0)), x0(n);
+    int k = 1 + (int)t.below((uint32_t)std::min(n, 2));
+    for (int c = 0; c < k; c++) d[(int)t.below((uint32_t)n)] = gen_nz(t, 1);
+    for (int j = 0; j < n; j++) {
+      if (d[j] > 0) m.cols[j].up = PINF();
+      if (d[j] < 0) m.cols[j].lo = NINF();
+      x0[j] = point_in(t, m.cols[j].lo, m.cols[j].up, 2, big);
+    }
+    for (auto &r : m.rows) {
+      Q ad = dot(r, d), act = dot(r, x0), gap = abs(gen_num(t, big));
+      if (ad > 0) { r.sense = 'G'; r.rhs = act - gap; }
+      else if (ad < 0) { r.sense = 'L'; r.rhs = act + gap; }
+      else {
+        r.sense = "LGER"[t.below(4)];
+        r.range = r.sense == 'R' ? abs(gen_num(t, big)) : Q(0);
+        r.rhs = r.sense == 'L' ? act + gap : (r.sense == 'G' ? act - gap : (r.sense == 'E' ? act : act - r.range / 2));
+      }
+    }
+    // objective improving along d
+    for (auto &c : m.cols) c.obj = 0;
+    for (int j = 0; j < n; j++) if (d[j] != 0) m.cols[j].obj = (m.objsense >= 0 ? Q(-1) : Q(1)) * d[j] * abs(gen_nz(t, 1));
+    for (int j = 0; j < n; j++) if (d[j] == 0 && t.chance(1, 3) && is_fin(m.cols[j].lo) && is_fin(m.cols[j].up)) m.cols[j].obj = gen_num(t, 1);
+    out.expect = T_UNBOUNDED;
+    out.wx = x0; out.wd = d;
+    break;
+  }
+  case F_ILL: {
+    // ill-conditioned matrices, then the optimal-by-construction recipe on top
+    m = Model();
+    m.objsense = t.coin() ? -1 : 1;
+    int n = 2 + (int)t.below((uint32_t)std::max(1, o.maxn - 1));
+    int mm = 2 + (int)t.below((uint32_t)std::max(1, o.maxm - 1));
+    for (int j = 0; j < n; j++) { Col c; rand_box(t, 1, c.lo, c.up, false); m.cols.push_back(c); }
+    int kind = (int)t.below(4);
+    for (int i = 0; i < mm; i++) {
+      Row r;
+      if (kind == 0) {            // Hilbert-like
+        for (int j = 0; j < n; j++) r.a[j] = Q(1, i + j + 1);
+      } else if (kind == 1 && i > 0) {   // near parallel to the previous row
+        r = m.rows[i - 1];
+        int e = 30 + (int)t.below(40);
+        for (auto &kv : r.a) kv.second *= (Q(1) + qpow2(-e) * Q((long)t.below(5) - 2));
+        if (!r.a.empty() && t.coin()) r.a.begin()->second += qpow2(-e);
+      } else if (kind == 2) {     // huge coefficient spread
+        rand_row(t, n, 1, n, r);
+        for (auto &kv : r.a) kv.second *= qpow2((int)t.below(130) - 65);
+      } else {
+        rand_row(t, n, 2, n, r);
+      }
+      if (r.a.empty()) r.a[0] = 1;
+      m.rows.push_back(r);
+    }
+    make_optimal(t, m, 1, (int)t.below(5), out);
+    out.family += strprintf("/k%d", kind);
+    break;
+  }
+  case F_CYC: {
+    // classical cycling examples under random positive row/column scalings and permutations
+    m = Model();
+    int which = (int)t.below(2);
+    std::vector<std::vector<Q>> A;
+    std::vector<Q> c, b;
+    if (which == 0) {   // Beale: min -3/4 x1 + 150 x2 - 1/50 x3 + 6 x4
+      A = {{Q(1, 4), Q(-60), Q(-1, 25), Q(9)}, {Q(1, 2), Q(-90), Q(-1, 50), Q(3)}, {Q(0), Q(0), Q(1), Q(0)}};
+      b = {Q(0), Q(0), Q(1)};
+      c = {Q(-3, 4), Q(150), Q(-1, 50), Q(6)};
+    } else {            // Kuhn: min -2x1 -3x2 + x3 + 12 x4
+      A = {{Q(-2), Q(-9), Q(1), Q(9)}, {Q(1, 3), Q(1), Q(-1, 3), Q(-2)}, {Q(1), Q(1), Q(1), Q(1)}};
+      b = {Q(0), Q(0), Q(10)};   // third row bounds the otherwise unbounded problem
+      c = {Q(-2), Q(-3), Q(1), Q(12)};
+    }
+    int n = (int)c.size(), mm = (int)b.size();
+    std::vector<int> cp(n), rp(mm);
+    for (int j = 0; j < n; j++) cp[j] = j;
+    for (int i = 0; i < mm; i++) rp[i] = i;
+    for (int j = n - 1; j > 0; j--) std::swap(cp[j], cp[t.below((uint32_t)j + 1)]);
+    for (int i = mm - 1; i > 0; i--) std::swap(rp[i], rp[t.below((uint32_t)i + 1)]);
+    std::vector<Q> cs(n), rs(mm);
+    for (auto &v : cs) v = t.coin() ? Q(1) : abs(gen_nz(t, 1));
+    for (auto &v : rs) v = t.coin() ? Q(1) : abs(gen_nz(t, 1));
+    bool flip = t.coin();   // present as a maximisation of the negated objective
+    m.objsense = flip ? -1 : 1;
+    for (int j = 0; j < n; j++) { Col col; col.lo = 0; col.up = PINF(); col.obj = (flip ? Q(-1) : Q(1)) * c[cp[j]] * cs[j]; m.cols.push_back(col); }
+    for (int i = 0; i < mm; i++) {
+      Row r; r.sense = 'L'; r.rhs = b[rp[i]] * rs[i];
+      for (int j = 0; j < n; j++) { Q v = A[rp[i]][cp[j]] * rs[i] * cs[j]; if (v != 0) r.a[j] = v; }
+      m.rows.push_back(r);
+    }
+    out.family += which == 0 ? "/beale" : "/kuhn";
+    break;
+  }
+  default: {   // F_SHAPE: structural corner cases
+    m = Model();
+    m.objsense = t.coin() ? -1 : 1;
+    int kind = (int)t.below(7);
+    int n = 1 + (int)t.below((uint32_t)std::min(o.maxn, 5));
+    for (int j = 0; j < n; j++) {
+      Col c;
+      switch (t.below(6)) {
+      case 0: c.lo = 0; c.up = PINF(); break;
+      case 1: c.lo = NINF(); c.up = PINF(); break;
+      case 2: c.lo = c.up = gen_num(t, 1); break;                       // fixed
+      case 3: c.lo = NINF(); c.up = -abs(gen_nz(t, 1)); break;          // negative upper
+      case 4: c.lo = -abs(gen_nz(t, 1)); c.up = abs(gen_nz(t, 1)); break;
+      default: c.lo = gen_num(t, 1); c.up = PINF(); break;
+      }
+      c.obj = t.chance(1, 4) ? Q(0) : gen_num(t, 1);
+      m.cols.push_back(c);
+    }
+    int mm = kind == 0 ? 0 : 1 + (int)t.below((uint32_t)std::min(o.maxm, 4));
+    for (int i = 0; i < mm; i++) {
+      Row r;
+      if (kind == 1 || (kind == 2 && t.coin())) { /* empty row */ }
+      else rand_row(t, n, 1, n, r);
+      r.sense = kind == 3 ? 'E' : (kind == 4 ? 'R' : "LGER"[t.below(4)]);
+      r.rhs = (kind == 1 && t.coin()) ? Q(0) : gen_num(t, 1);
+      r.range = r.sense == 'R' ? (t.chance(1, 3) ? Q(0) : abs(gen_num(t, 1))) : Q(0);
+      m.rows.push_back(r);
+    }
+    out.family += strprintf("/k%d", kind);
+    break;
+  }
+  }
+  name_all(m);
+}
+
+void gen_lp(Tape &t, const GenOpts &o, GenLP &out) {
+  // weights: opt 5, ill 3, face 2, inf 3, unb 1, cyc 1, shape 2, rand 2  (an exhausted tape gives F-opt)
+  static const int fam[] = {F_OPT, F_OPT, F_OPT, F_ILL, F_INF, F_FACE, F_SHAPE, F_RAND, F_OPT, F_ILL, F_INF, F_FACE,
+                            F_SHAPE, F_RAND, F_UNB, F_CYC, F_OPT, F_ILL, F_INF};
+  gen_lp_family(t, o, fam[t.below(sizeof fam / sizeof fam[0])], out);
 }
 
 }  // namespace qsx
